@@ -233,7 +233,10 @@ pub fn hostile_like(rng: &mut Rng, s: &str) -> String {
     return match rng.below(4) {
       0 | 1 => pick_s(rng, DID_TOKENS).to_string(),
       2 => format!("{}{}", s, pick_s(rng, &["", " ", "\n", "/p", "?q", "#f", "#", "?", "%", "%4", "é", ":", "/p?q#f"])),
-      _ => mutate_str(rng, s, pick_s(rng, DID_TOKENS)),
+      _ => {
+        let o = pick_s(rng, DID_TOKENS);
+        mutate_str(rng, s, o)
+      }
     };
   }
   if looks_ts(s) {
@@ -243,7 +246,10 @@ pub fn hostile_like(rng: &mut Rng, s: &str) -> String {
     return match rng.below(3) {
       0 => pick_s(rng, URL_TOKENS).to_string(),
       1 => pick_s(rng, DID_TOKENS).to_string(),
-      _ => mutate_str(rng, s, pick_s(rng, URL_TOKENS)),
+      _ => {
+        let o = pick_s(rng, URL_TOKENS);
+        mutate_str(rng, s, o)
+      }
     };
   }
   if s.bytes().all(|b| b.is_ascii_digit()) && !s.is_empty() {
@@ -278,7 +284,10 @@ pub fn hostile_like(rng: &mut Rng, s: &str) -> String {
   match rng.below(3) {
     0 => pick_s(rng, MISC_TOKENS).to_string(),
     1 => any_token(rng).to_string(),
-    _ => mutate_str(rng, s, any_token(rng)),
+    _ => {
+      let o = any_token(rng);
+      mutate_str(rng, s, o)
+    }
   }
 }
 
@@ -439,7 +448,8 @@ fn mutate_json_step(rng: &mut Rng, root: &mut Value) {
     }
     (10, Value::Number(n)) => *node = Value::String(n.to_string()),
     (11, Value::String(s)) => {
-      let r = mutate_str(rng, s, any_token(rng));
+      let o = any_token(rng);
+      let r = mutate_str(rng, s, o);
       *s = r;
     }
     (_, Value::String(s)) => {
